@@ -3,7 +3,7 @@ import ast
 
 from sa import absint
 from sa.absint import AV, INF, const
-from sa.astutil import (call_name, calls_in, dotted, norm, walk_no_nested, try_fold,
+from sa.astutil import (effective, call_name, calls_in, dotted, norm, walk_no_nested, try_fold,
                         names_in, last_attr, joined_str_parts, format_fields, concat_str)
 from sa.loader import AnalysisError
 from sa.canon import canon
@@ -285,8 +285,8 @@ def run(ctx):
         if len(ifs) == 1:
             t = ifs[0]
             pos = norm(t.test).replace(' ', '') in ('charge>0.0', 'charge>0')
-            b_t = [norm(s) for s in t.body]
-            b_f = [norm(s) for s in t.orelse]
+            b_t = [norm(s) for s in effective(t.body)]
+            b_f = [norm(s) for s in effective(t.orelse)]
             dir_ok = pos and b_t == ['%s = %s' % (lo_p, ph_p)] and b_f == ['%s = %s' % (hi_p, ph_p)]
         ctx.ob('C09.R4', 'bisection:direction', dir_ok,
                'a positive total charge moves the lower bound up, otherwise the upper bound down '
